@@ -112,7 +112,7 @@ func runC07(seed int64, n int, dir string, tier string) *Report {
 		if len(prev) > 3 {
 			prev = prev[1:]
 		}
-		rep.NoteCase(fmt.Sprint(i, gen.Describe(d)), d.NodeList != nil && len(d.NodeList.Nodes) >= 2, map[string]any{"document": gen.Describe(d)})
+		rep.NoteInput(fmt.Sprint(i, gen.Describe(d)), d.NodeList != nil && len(d.NodeList.Nodes) >= 2, map[string]any{"document": gen.Describe(d)})
 	}
 	// ---- cycles: documents a serializer accepts (one root, closed edges) whose containment or
 	// dependency edges form cycles of every kind; serialized in a child process, because runaway
